@@ -107,7 +107,15 @@ def main():
                 'caught_by_own_property': prop in fired,
                 'violations_reported': details.get(prop, []),
             }
-            with open(os.path.join(dst, 'meta.json'), 'w') as f:
+            mp = os.path.join(dst, 'meta.json')
+            if os.path.exists(mp):
+                old = json.load(open(mp))
+                meta['first_run'] = old.get('first_run', {'caught_by_own_property': old.get('caught_by_own_property'), 'checks_fired': old.get('checks_fired')})
+                meta['round'] = old.get('round', 1)
+            else:
+                meta['first_run'] = {'caught_by_own_property': prop in fired, 'checks_fired': fired, 'checks_undecided': undecided}
+                meta['round'] = int(os.environ.get('SEED_ROUND', '2'))
+            with open(mp, 'w') as f:
                 json.dump(meta, f, indent=1)
         return 0
     finally:
